@@ -307,19 +307,21 @@ def obligations(tier: str) -> List[dict]:
                 ['metadata-multi'] if g0 == 1 else [], n=2, g0=g0)
     else:
         for f0 in range(8):
-            for s0 in range(12):
-                add('h_fragments', '(a) fragments', 3000, k=3, nf=8, ns=12,
-                    f0=f0, s0=s0)
-        for f0 in range(6):
-            for s0 in range(7):
-                add('h_fragments', '(a) fragments', 3000, k=4, nf=6, ns=7,
+            add('h_fragments', '(a) fragments', 1800, k=3, nf=8, ns=12,
+                f0=f0)
+        for f0 in range(5):
+            for s0 in range(5):
+                add('h_fragments', '(a) fragments', 1800, k=4, nf=5, ns=5,
                     f0=f0, s0=s0)
         for ti in range(len(TEMPLATES)):
-            add('h_symbolic_char', '(a) symbolic character', 3000,
+            add('h_symbolic_char', '(a) symbolic character', 1800,
                 ['exotic-separator', 'line-terminator'], ti=ti, graphs=True)
+        for n in (0, 1):
+            add('h_dump_load', '(b) dump/load', 600, n=n)
         for g0 in range(len(GRAPH_TEXTS)):
-            for g1 in range(len(GRAPH_TEXTS)):
-                add('h_dump_load', '(b) dump/load', 3000, n=3, g0=g0, g1=g1)
+            add('h_dump_load', '(b) dump/load', 1800, n=2, g0=g0)
+            add('h_dump_load', '(b) dump/load', 1800, n=3, g0=g0, meta0=1,
+                compact=0)
     return obs
 
 
